@@ -116,6 +116,9 @@ def gen_segment(rng, stream, tier, big=False):
     wide = 2 ** 32 if (fam == 'zp' or 'maxP' in con or con.get('nonneg')) else 2 ** 70
     for _ in range(n_ops):
         o = rng.choice(ops)
+        # value semantics of the operator objects (copy / move / assignment / swap against an object of another field,
+        # both argument positions): the field stays the one it was initialised for; a no-op for the other classes
+        if stream.endswith('_ops') and rng.random() < 0.12: lines.append('xfer %d' % rng.randrange(6))
         if o == 'conv':
             if fam == 'multi' and con.get('nonneg'):
                 z = rng.choice([0, 1, m - 1, m, m + 1, 2 * m + 3, rng.randrange(2 ** 31)])
@@ -182,6 +185,9 @@ def oracle(case, impl):
         a = [int(x) for x in t[1:]]
         o = t[0]
         exp = None
+        if o == 'xfer':
+            if got != 'ok': return '%s -> %s' % (line, got)
+            continue
         if o in ('conv', 'convu'): exp = a[0] % m
         elif o == 'add': exp = (a[0] + a[1]) % m
         elif o == 'sub': exp = (a[0] - a[1]) % m
